@@ -98,10 +98,8 @@ def applyCum (cfg : Config) (header : BoxHeader) : BoxHeader :=
   | .ok none, some t => { header with sz := .size t }     -- overwrite_size
   | _, _ => header
 
-/-- one iteration of the `while` body, after `fill_buf` said there is more input (lib.rs:284-386) -/
-def scanBox (cfg : Config) (st : ScanState) : P ScanState :=
-  .position fun startPos => do
-  let header ← readHeader
+/-- the `match header.box_type()` of one iteration (lib.rs:294-385), after the header was read -/
+def scanBody (cfg : Config) (st : ScanState) (startPos : Nat) (header : BoxHeader) : P ScanState :=
   let ty := header.ty
   if ty = FREE ∨ ty = SKIP then do
     let n ← skipBox header
@@ -142,6 +140,10 @@ def scanBox (cfg : Config) (st : ScanState) : P ScanState :=
     let _ ← addU64 "skip_box + encoded_len" n header.encodedLen
     .fail .unsupportedBox
 
+/-- one iteration of the `while` body, after `fill_buf` said there is more input (lib.rs:284-386) -/
+def scanBox (cfg : Config) (st : ScanState) : P ScanState :=
+  .position fun startPos => readHeader.bind fun header => scanBody cfg st startPos header
+
 /-- the `while !reader.fill_buf().await?.is_empty()` loop, with fuel -/
 def scan (cfg : Config) : Nat → ScanState → Prog PErr (Option ScanState)
   | 0, _ => .done none
@@ -157,12 +159,12 @@ def i32Max : Int := 2147483647
 
 /-- what to do with the chunk offsets (lib.rs:411-435), from the re-encoded metadata length and the media
     offset: `(pad, disp)` — pad bytes of `free` box to append (0 = none) and the displacement to apply
-    (`none` = leave the offsets alone).  `maxPad` = `config.max_metadata_size`: a larger gap is not padded. -/
-def planRewrite (maxPad metadataLen dataOffset : Nat) : Except PErr (Nat × Option Int) :=
+    (`none` = leave the offsets alone).  A gap larger than the metadata itself is not padded. -/
+def planRewrite (metadataLen dataOffset : Nat) : Except PErr (Nat × Option Int) :=
   if metadataLen ≤ dataOffset then
     let gap := dataOffset - metadataLen
     if gap = 0 then .ok (0, none)
-    else if padHeaderSize ≤ gap ∧ gap ≤ maxPadSize ∧ gap ≤ maxPad then .ok (gap, none)
+    else if padHeaderSize ≤ gap ∧ gap ≤ maxPadSize ∧ gap ≤ metadataLen then .ok (gap, none)
     else if gap ≤ 2147483647 then .ok (0, some (-(gap : Int)))   -- try_into::<i32>().and_then(checked_neg)
     else .error .unsupportedBoxLayout
   else
@@ -180,7 +182,7 @@ def assemble (ftyp : Box Ftyp) (moov : Box L5) (metadataLen padSize : Nat) : Byt
   else body
 
 /-- everything after the loop (lib.rs:397-471): pure -/
-def finish (cfg : Config) (st : ScanState) : PureRes Sanitized :=
+def finish (st : ScanState) : PureRes Sanitized :=
   match st.ftyp with
   | none => .err .missingRequiredBox
   | some ftyp =>
@@ -200,7 +202,7 @@ def finish (cfg : Config) (st : ScanState) : PureRes Sanitized :=
           let moov' : Box L5 := ⟨mh, moov.data⟩
           let metadataLen := ftyp'.len ftypSer + moov'.len ser5
           if metadataLen > u64Max then .panic "ftyp.encoded_len() + moov.encoded_len()" else
-          match planRewrite cfg.maxMetadataSize metadataLen data.offset with
+          match planRewrite metadataLen data.offset with
           | .error e => .err e
           | .ok (pad, none) => .ok ⟨some (assemble ftyp' moov' metadataLen pad), data⟩
           | .ok (pad, some disp) =>
@@ -218,7 +220,7 @@ def checkEnd : P Unit :=
 def sanitizeP (cfg : Config) (fuel : Nat) : Prog PErr (Option Sanitized) :=
   (scan cfg fuel {}).bind fun
     | none => .done none
-    | some st => checkEnd.bind fun _ => (liftPure (finish cfg st)).bind fun r => .done (some r)
+    | some st => checkEnd.bind fun _ => (liftPure (finish st)).bind fun r => .done (some r)
 
 /-- the whole sanitizer on a cursor; `outOfFuel` never happens with the fuel used here (`scan_fuel_enough`) -/
 def sanitizeWith {σ} (ops : CursorOps σ) (st : σ) (cfg : Config) (fuel : Nat) : Outcome PErr Sanitized :=
